@@ -47,7 +47,7 @@ def h_target(ctx, chroms, split, avg, m=200):
     try:
         out = target.do_target(ga, None, True, split, avg)
     except Exception as exc:
-        ctx.claim(False, f"do_target raised {type(exc).__name__}", info=str(exc)[:200])
+        claim_raised(ctx, "do_target", exc)
         return
     orows = [tuple(r) for r in out.data.itertuples(index=False)]
     ctx.observe("rows", [list(r[:3]) for r in orows])
@@ -135,7 +135,7 @@ def h_antitarget(ctx, t_chroms, access_mode, avg, mn, m=6000, case=None, nested3
     try:
         out = antitarget.do_antitarget(targets, access, avg, mn)
     except Exception as exc:
-        ctx.claim(False, f"do_antitarget raised {type(exc).__name__}", info=str(exc)[:200])
+        claim_raised(ctx, "do_antitarget", exc)
         return
     orows = [tuple(r) for r in out.data.itertuples(index=False)]
     ctx.observe("rows", [list(r[:3]) for r in orows])
